@@ -67,6 +67,9 @@ struct Inputs<CS: BbsCiphersuite> {
     msgs: Vec<Vec<u8>>,
     cm: Vec<Vec<u8>>,
     disclosed: Vec<usize>,
+    /// the disclosed positions as handed to the library: the same set, possibly with positions listed several
+    /// times and out of order (the library sorts and de-duplicates the list)
+    disclosed_arg: Vec<usize>,
     sig: [u8; 80],
     key: KeySpec,
 }
@@ -112,22 +115,29 @@ fn inputs<CS: BbsCiphersuite>(seed: u32, u: usize, m: usize) -> Inputs<CS> {
     let header = b"hdr".to_vec();
     let ph = b"ph".to_vec();
     let sig = Signature::<BBSplus<CS>>::sign(Some(&msgs), kp.private_key(), kp.public_key(), Some(&header)).unwrap().to_bytes();
-    Inputs { kp, header, ph, msgs, cm, disclosed: vec![0], sig, key }
+    let disclosed: Vec<usize> = if l >= 4 && seed % 4 == 3 { vec![0, 2] } else { vec![0] };
+    // the blind interface refuses lists longer than the message count: stay within it
+    let reps = [1usize, 2, 3, 1, 4][(seed as usize / 4) % 5].min(l / disclosed.len()).max(1);
+    let mut disclosed_arg: Vec<usize> = disclosed.iter().flat_map(|&i| std::iter::repeat(i).take(reps)).collect();
+    if seed % 8 >= 4 {
+        disclosed_arg.reverse();
+    }
+    Inputs { kp, header, ph, msgs, cm, disclosed, disclosed_arg, sig, key }
 }
 
 /// one generation of every randomised artefact, all from identical inputs
 fn generate<CS: BbsCiphersuite>(inp: &Inputs<CS>, which: u8) -> Result<Gen, String> {
     let pk = inp.kp.public_key();
-    let proof = PoKSignature::<BBSplus<CS>>::proof_gen(pk, &inp.sig, Some(&inp.header), Some(&inp.ph), Some(&inp.msgs), Some(&inp.disclosed))
+    let proof = PoKSignature::<BBSplus<CS>>::proof_gen(pk, &inp.sig, Some(&inp.header), Some(&inp.ph), Some(&inp.msgs), Some(&inp.disclosed_arg))
         .map_err(|e| format!("proof_gen {:?}", e))?;
     let (com, bf) = Commitment::<BBSplus<CS>>::commit(Some(&inp.cm)).map_err(|e| format!("commit {:?}", e))?;
     let bsig = BlindSignature::<BBSplus<CS>>::blind_sign(inp.kp.private_key(), pk, Some(&com.to_bytes()), Some(&inp.header), Some(&inp.msgs))
         .map_err(|e| format!("blind_sign {:?}", e))?;
-    let bproof = PoKSignature::<BBSplus<CS>>::blind_proof_gen(pk, &bsig.to_bytes(), Some(&inp.header), Some(&inp.ph), Some(&inp.msgs), Some(&inp.cm), Some(&inp.disclosed), Some(&[]), Some(&bf))
+    let bproof = PoKSignature::<BBSplus<CS>>::blind_proof_gen(pk, &bsig.to_bytes(), Some(&inp.header), Some(&inp.ph), Some(&inp.msgs), Some(&inp.cm), Some(&inp.disclosed_arg), Some(&[]), Some(&bf))
         .map_err(|e| format!("blind_proof_gen {:?}", e))?;
     // the blind interface without commitment and without prover blind (the slot of the blind factor holds 0)
     let bsig0 = BlindSignature::<BBSplus<CS>>::blind_sign(inp.kp.private_key(), pk, None, Some(&inp.header), Some(&inp.msgs)).map_err(|e| format!("blind_sign without commitment {:?}", e))?;
-    let bproof0 = PoKSignature::<BBSplus<CS>>::blind_proof_gen(pk, &bsig0.to_bytes(), Some(&inp.header), Some(&inp.ph), Some(&inp.msgs), None, Some(&inp.disclosed), None, None)
+    let bproof0 = PoKSignature::<BBSplus<CS>>::blind_proof_gen(pk, &bsig0.to_bytes(), Some(&inp.header), Some(&inp.ph), Some(&inp.msgs), None, Some(&inp.disclosed_arg), None, None)
         .map_err(|e| format!("blind_proof_gen without prover blind {:?}", e))?;
     let rkp = KeyPair::<BBSplus<CS>>::random().map_err(|e| format!("KeyPair::random {:?}", e))?;
     Ok(Gen {
@@ -537,7 +547,7 @@ pub fn run(ctx: &Ctx, rep: &Report) -> Meta {
         }
     }
     Meta {
-        rule: "history = a generated schedule of n generations (small shapes U in {0,1,3}, M in {0,2}); large shapes with up to 70 / 600 hidden and 64 / 600 committed messages and EVERY count of hidden messages 0..72 / 0..140 with two generations each; (n = 64 quick / 1000 thorough) over two input sets (same input repeated most of the time), on 1, 4 or 16 threads released from a barrier, with the deterministic calls of a stateless worker (key re-derived from the same key material / sign / verify + proof_verify / all of them) repeated with identical arguments before every generation in four fifths of the histories, \
+        rule: "history = a generated schedule of n generations (disclosed positions handed over as a plain list or with every position listed up to four times, in ascending or descending order) (small shapes U in {0,1,3}, M in {0,2}); large shapes with up to 70 / 600 hidden and 64 / 600 committed messages and EVERY count of hidden messages 0..72 / 0..140 with two generations each; (n = 64 quick / 1000 thorough) over two input sets (same input repeated most of the time), on 1, 4 or 16 threads released from a barrier, with the deterministic calls of a stateless worker (key re-derived from the same key material / sign / verify + proof_verify / all of them) repeated with identical arguments before every generation in four fifths of the histories, \
                plus identical inputs in 3 (quick) / 8 (thorough) fresh child processes; each generation = proof_gen + commit + blind_sign + blind_proof_gen + BlindFactor::random + KeyPair::random + generate_random_secret; \
                oracle (witness holder): e~ = e^ - e*c, m~_j = m^_j - m_j*c, s~ = s^ - blind*c are non-zero, >= 2^128, pairwise distinct over the whole pooled history (also vs. challenges, blind factors, random keys), \
                consecutive values differ by >= 2^128 both ways, Abar/Bbar/D/commitments/random secrets pairwise distinct, two-transcript extractor returns neither e nor a hidden message, \
